@@ -916,6 +916,14 @@ func (fx *fnExec) run() (err error) {
 	vo := fx.addObl("vacuity", "requires", fx.allProps(), "false", fn.Pos(), "requires && axioms satisfiable")
 	vo.Canary = true
 
+	for _, sc := range fx.ct.Schemas {
+		why := fx.g.schemaMismatch(fx, sc.Anchor, sc.Target)
+		goal := "true"
+		if why != "" {
+			goal = "false"
+		}
+		fx.addObl("schema", sc.Label, fx.clauseProps(sc, fx.funProps()), goal, fn.Pos(), "every JSON key written by "+sc.Anchor+" is read by "+sc.Target+" into a compatible type: "+why)
+	}
 	if len(fx.ct.Deterministic) > 0 {
 		why := fx.g.nondeterminism(fx.fn, map[*ssa.Function]bool{})
 		goal := "true"
